@@ -37,7 +37,7 @@ CONSTANTS MaxObjs,      \* objects per graph
 H == INSTANCE H_Reduce
 
 AllShapes == {"list", "dict", "tuple", "set", "P", "PA", "S", "SD", "GS", "GT", "GV", "GC", "GL", "NA", "NT", "R2", "R3", "RL", "RD",
-              "CR", "ML", "MD", "MS", "OD", "MO", "XS"}
+              "CR", "ML", "MD", "MS", "OD", "MO", "XS", "E0", "DS", "SB", "E0T", "PT", "ST", "DST"}
 AllFixes  == {"deepreg", "slotsnone", "falsystate", "nonestate", "emptytuple", "latefill", "scalarsub", "stateorder"}
 \* Attribute names are part of the state.  The naming scheme of an object gives the name of its first attribute (the others
 \* are b, c, ...): an ordinary name, 'extend' (the method construct_python_object_apply calls), a __dunder__ name, an
@@ -109,6 +109,38 @@ Pad2(vs)  == [j \in 1 .. 2 |-> IF j <= Len(vs) THEN vs[j] ELSE Lf("z")]
 DictOrNone(o) == IF o.a = <<>> THEN VNone ELSE VD(Attrs(o))
 
 (***************************************************************************)
+(* The layout of a class is part of its shape: whether its instances have  *)
+(* an instance dictionary, which names are slots (declared anywhere along  *)
+(* the MRO), and whether it defines __setstate__.  The classes that use    *)
+(* the default reduction cover the product                                 *)
+(*                 no __setstate__           __setstate__ (state as given) *)
+(*   no dict, no slots     E0                     E0T                      *)
+(*   dict only             P (PA)                 PT                       *)
+(*   slots only            S                      ST                       *)
+(*   dict and slots        SD ('__dict__' is a slot; first attribute in a  *)
+(*                         slot, the others in the dictionary),            *)
+(*                         DS (slots declared by a subclass of a class     *)
+(*                         without slots), SB (subclass without slots of a *)
+(*                         class with slots)      DST ('__dict__' a slot)  *)
+(* For DS, SB, DST the section p holds the dictionary entries p0, p1, ...  *)
+(* and the section a the slot values (named like the attributes of S), so  *)
+(* that both parts of the state can be empty or not independently.         *)
+(* Where a value lives is observable (attribute access through the slot    *)
+(* descriptor vs vars(obj)), hence part of the heap: edge class "s" = slot *)
+(* value, "a" = entry of the instance dictionary.                          *)
+(***************************************************************************)
+LayoutShapes == {"E0", "DS", "SB", "E0T", "PT", "ST", "DST"}
+StateT       == {"E0T", "PT", "ST", "DST"}                \* __setstate__ defined, default __getstate__
+HasSetstate(lab) == lab \in {"GS", "GT", "GV", "GC", "GL"} \cup StateT
+HasDict(lab)     == lab \in {"P", "PA", "SD", "GS", "GT", "GV", "GC", "GL", "NA", "R2", "R3", "RL", "RD", "CR", "CRi", "ML", "MD", "MS", "OD", "MO", "XS",
+                             "DS", "SB", "PT", "DST"}
+SpecialNames == {"extend", "__tag__", "_p", "append", "update"}
+SlotNames(lab) == CASE lab \in {"S", "DS", "SB"} -> Range(ANames) \cup SpecialNames
+                    [] lab \in {"ST", "DST"}     -> Range(ANames) \cup SpecialNames \cup {"n"}
+                    [] lab = "SD"                -> {"a"} \cup SpecialNames
+                    [] OTHER                     -> {}
+
+(***************************************************************************)
 (* The class family: what each class's reduction returns (the interface    *)
 (* between the classes and both protocols).                                *)
 (*   new   function is copyreg.__newobj__ (args[0] = cls stripped)         *)
@@ -117,6 +149,15 @@ DictOrNone(o) == IF o.a = <<>> THEN VNone ELSE VD(Attrs(o))
 (*   None or exhausted iterator)                                           *)
 (***************************************************************************)
 Rd(new, fn, args, state, li, di) == [new |-> new, fn |-> fn, args |-> args, state |-> state, li |-> li, di |-> di]
+
+\* object.__getstate__ (Python >= 3.11): the instance dictionary, None when it is empty or absent; with slots that are
+\* set the 2-tuple (that, {slot: value})
+DefaultState(dpairs, spairs) ==
+  LET d == IF dpairs = <<>> THEN VNone ELSE VD(dpairs)
+  IN  IF spairs = <<>> THEN d ELSE VT(<<d, VD(spairs)>>)
+\* dictionary entries / slot values of an object of a layout shape (both in sorted order)
+DPairs(o) == IF o.s = "PT" THEN Attrs(o) ELSE [j \in DOMAIN o.p |-> <<PNames[j], At(o.p[j])>>]
+SPairs(o) == IF o.s \in {"PT", "E0", "E0T"} THEN <<>> ELSE Attrs(o)
 
 ReduceOf(o) ==
   CASE o.s = "P"  -> Rd(TRUE, "P", <<>>, DictOrNone(o), <<>>, <<>>)
@@ -127,6 +168,7 @@ ReduceOf(o) ==
                         IF o.a = <<>> THEN VNone
                         ELSE VT(<<IF Len(o.a) = 1 THEN VNone ELSE VD(SortPairs(Tail(AttrsU(o)))), VD(<<AttrsU(o)[1]>>)>>),
                         <<>>, <<>>)
+    [] o.s \in LayoutShapes -> Rd(TRUE, o.s, <<>>, DefaultState(DPairs(o), SPairs(o)), <<>>, <<>>)
     [] o.s = "GS" -> Rd(TRUE, "GS", <<>>, VD(Attrs(o)), <<>>, <<>>)
     [] o.s = "GT" -> Rd(TRUE, "GT", <<>>, VL(Atoms(o.p)), <<>>, <<>>)
     [] o.s = "GV" -> Rd(TRUE, "GV", <<>>, At(o.p[1]), <<>>, <<>>)
@@ -149,8 +191,6 @@ ReduceOf(o) ==
     [] o.s = "XS" -> Rd(TRUE, "XS", <<At(o.p[1])>>, DictOrNone(o), <<>>, <<>>)  \* int / str / float / bytes / complex subclass
     [] OTHER -> Rd(FALSE, "?", <<>>, VNone, <<>>, <<>>)
 
-HasSetstate(lab) == lab \in {"GS", "GT", "GV", "GC", "GL"}
-HasDict(lab)     == lab \in {"P", "PA", "SD", "GS", "GT", "GV", "GC", "GL", "NA", "R2", "R3", "RL", "RD", "CR", "CRi", "ML", "MD", "MS", "OD", "MO", "XS"}
 \* classes whose default reduction hands out the instance dictionary itself as the state (not a copy)
 OwnDictState(fn) == fn \in {"P", "PA", "CRi", "NA", "ML", "MD", "MS", "XS"}
 
@@ -166,14 +206,23 @@ ERR(what)    == [lab |-> "ERR", dig |-> what, pos |-> <<>>, dv |-> <<>>, at |-> 
 IsERR(rec)   == rec.lab = "ERR"
 
 SetNamed(kids, c, name, v) ==
-  IF \E j \in DOMAIN kids : kids[j].k = name
-  THEN [j \in DOMAIN kids |-> IF kids[j].k = name THEN Kid(c, name, v) ELSE kids[j]]
+  IF \E j \in DOMAIN kids : kids[j].c = c /\ kids[j].k = name
+  THEN [j \in DOMAIN kids |-> IF kids[j].c = c /\ kids[j].k = name THEN Kid(c, name, v) ELSE kids[j]]
   ELSE Append(kids, Kid(c, name, v))
-SetAttr(rec, name, v) == [rec EXCEPT !.at = SetNamed(@, "a", name, v)]
+SetAttr(rec, name, v) == [rec EXCEPT !.at = SetNamed(@, "a", name, v)]          \* rec.__dict__[name] = v
+SetSlot(rec, name, v) == [rec EXCEPT !.at = SetNamed(@, "s", name, v)]          \* through the slot descriptor
 SetItem(rec, key, v)  == [rec EXCEPT !.dv = SetNamed(@, "v", key, v)]
+\* setattr(rec, name, v) of a class without __setattr__: a slot descriptor of that name comes first, then the instance
+\* dictionary; without either AttributeError
+PySetattr(rec, name, v) == IF name \in SlotNames(rec.lab) THEN SetSlot(rec, name, v)
+                           ELSE IF HasDict(rec.lab) THEN SetAttr(rec, name, v) ELSE ERR("AttributeError")
 
 RECURSIVE SetAttrs(_, _)            \* ps : Seq of <<name, view>>
 SetAttrs(rec, ps) == IF ps = <<>> THEN rec ELSE SetAttrs(SetAttr(rec, Head(ps)[1], RVof(Head(ps)[2])), Tail(ps))
+RECURSIVE PySetattrs(_, _)
+PySetattrs(rec, ps) == IF ps = <<>> \/ IsERR(rec) THEN rec ELSE PySetattrs(PySetattr(rec, Head(ps)[1], RVof(Head(ps)[2])), Tail(ps))
+\* rec.__dict__.update(ps): AttributeError when there is no instance dictionary
+DictUpdate(rec, ps) == IF HasDict(rec.lab) THEN SetAttrs(rec, ps) ELSE ERR("AttributeError")
 RECURSIVE SetItems(_, _)
 SetItems(rec, ps) == IF ps = <<>> THEN rec ELSE SetItems(SetItem(rec, Head(ps)[1], RVof(Head(ps)[2])), Tail(ps))
 
@@ -184,7 +233,7 @@ SetDig(kinds) == "m" \o JoinKinds(LeafOrder, kinds)
 
 \* cls.__new__(cls, args...) when new, else fn(args...); args : Seq of views
 ClsNew(fn, new, args) ==
-  CASE fn \in {"P", "PA", "CRi", "S", "SD", "GS", "GT", "GV", "GC", "GL", "ML", "MD"} /\ new -> Empty(fn)
+  CASE fn \in ({"P", "PA", "CRi", "S", "SD", "GS", "GT", "GV", "GC", "GL", "ML", "MD"} \cup LayoutShapes) /\ new -> Empty(fn)
     [] fn = "NA" /\ new -> [Empty("NA") EXCEPT !.pos = [j \in DOMAIN args |-> Kid("t", "", RVof(args[j]))]]
     [] fn = "NT" /\ new -> IF Len(args) # 2 THEN ERR("TypeError")
                            ELSE [Empty("NT") EXCEPT !.pos = [j \in DOMAIN args |-> Kid("t", "", RVof(args[j]))]]
@@ -216,6 +265,16 @@ ClsSetState(rec, sv) ==
                          ELSE LET it == sv.e[CHOOSE j \in DOMAIN sv.e : sv.e[j][1] = "items"][2] IN
                               IF it.t \notin {"list", "tuple"} THEN ERR("TypeError")
                               ELSE SetAttrs(SetAttr(rec, "items", RVof(it)), [j \in DOMAIN it.e |-> <<XNames[j], it.e[j]>>])
+    \* E0T, PT, ST, DST apply the state the way the default does (2-tuple = (dictionary part, slot part), None = nothing)
+    \* and leave a mark that says which form of state they were given
+    [] rec.lab \in StateT ->
+         LET two   == sv.t = "tuple" /\ Len(sv.e) = 2
+             dpart == IF two THEN sv.e[1] ELSE sv
+             spart == IF two THEN sv.e[2] ELSE VD(<<>>)
+         IN  IF ~(dpart.t = "dict" \/ IsNoneV(dpart)) \/ spart.t # "dict" THEN ERR("TypeError")
+             ELSE LET r1 == IF dpart.t = "dict" /\ dpart.e # <<>> THEN DictUpdate(rec, dpart.e) ELSE rec
+                      r2 == PySetattrs(r1, spart.e)
+                  IN  IF IsERR(r2) THEN r2 ELSE PySetattr(r2, "n", Lf(IF two THEN "n2" ELSE "n0"))
     [] OTHER -> ERR("AttributeError")
 
 \* instance.extend(items)
@@ -236,20 +295,28 @@ SortBy(kids, order) ==
   LET present == SelectSeq(order, LAMBDA nm : \E j \in DOMAIN kids : kids[j].k = nm)
   IN  IF Len(present) # Len(kids) THEN Assert(FALSE, <<"name outside the order table", kids>>)
       ELSE [x \in DOMAIN present |-> kids[CHOOSE j \in DOMAIN kids : kids[j].k = present[x]]]
-PlainRec(rec) == rec.lab \in {"P", "PA", "CRi"} \/ (rec.lab = "NA" /\ rec.pos = <<>>)
+\* plain instance dictionary: the reduction is (__newobj__, (cls,), dict or None) and there is no __setstate__; for a class
+\* with a dictionary and slots that is so as long as no slot is set
+PlainRec(rec) == \/ rec.lab \in {"P", "PA", "CRi"}
+                 \/ (rec.lab = "NA" /\ rec.pos = <<>>)
+                 \/ (rec.lab \in {"SD", "DS", "SB"} /\ \A j \in DOMAIN rec.at : rec.at[j].c # "s")
 Canon(rec) ==
   LET soften(ks, b) == [j \in DOMAIN ks |-> [ks[j] EXCEPT !.soft = b]]
+      slots == SelectSeq(rec.at, LAMBDA x : x.c = "s")
+      dents == SelectSeq(rec.at, LAMBDA x : x.c # "s")
   IN [lab |-> rec.lab, dig |-> rec.dig,
       kids |-> soften(rec.pos, rec.lab = "list")
                \o soften(IF rec.lab \in {"OD", "MO"} THEN rec.dv ELSE SortBy(rec.dv, KeyOrder), rec.lab = "dict")
-               \o soften(SortBy(rec.at, AttrOrder), PlainRec(rec))]
+               \o soften(SortBy(slots, AttrOrder), FALSE)                    \* slot values by name,
+               \o soften(SortBy(dents, AttrOrder), PlainRec(rec))]           \* then the instance dictionary by name
 
 (***************************************************************************)
 (* H : PickleRebuild - pickle protocol 2 on the reduce value:              *)
 (*   obj = cls.__new__(cls, args...)  or  function(args...)     (memoised)     *)
 (*   state not None: obj.__setstate__(state) if defined, else              *)
 (*       (state, slotstate) = state if it is a 2-tuple;                    *)
-(*       obj.__dict__.update(state) if state; setattr each slot            *)
+(*       obj.__dict__.update(state) if state; setattr(obj, k, v) for each  *)
+(*       entry of slotstate (lands in the slot of that name)               *)
 (*   (obj.extend(listitems) and obj[k] = v for dictitems come BEFORE that) *)
 (* References keep their identity (the memo), so object i of g is node i.  *)
 (***************************************************************************)
@@ -257,8 +324,9 @@ PDefaultState(rec, sv) ==
   LET two == sv.t = "tuple" /\ Len(sv.e) = 2
       dpart == IF two THEN sv.e[1] ELSE sv
       spart == IF two THEN sv.e[2] ELSE VNone
-      r1 == IF dpart.t = "dict" THEN SetAttrs(rec, dpart.e) ELSE rec
-  IN  IF spart.t = "dict" THEN SetAttrs(r1, spart.e) ELSE r1
+      \* if state: inst.__dict__[k] = v for each;  if slotstate: setattr(inst, k, v) for each
+      r1 == IF dpart.t = "dict" /\ dpart.e # <<>> THEN DictUpdate(rec, dpart.e) ELSE rec
+  IN  IF spart.t = "dict" THEN PySetattrs(r1, spart.e) ELSE r1
 
 \* a list that is complete when pickle reaches BUILD of the object holding it (it does not lead back to that object,
 \* see InDomain), seen the way __setstate__ sees it
@@ -439,15 +507,18 @@ SetInstState(st, iv, sv) ==
        IN  \* check_state_key: only without `unsafe` (FullConstructor); the unsafe constructors pass unsafe=True
            IF st.full /\ \E k \in allKeys : Blacklisted(k) THEN Fail(st, "ConstructorError")
            ELSE IF spart.t # "dict" THEN Fail(st, "AttributeError")
-           ELSE IF HasDict(rec.lab) THEN
+           \* the slot part - and, for an instance without a dictionary, the whole state - is applied with
+           \* setattr(instance, key, value): the value lands in the slot of that name, else in the dictionary
+           ELSE LET put(r) == IF IsERR(r) THEN Fail(st, r.dig) ELSE [st EXCEPT !.heap[iv.r] = r] IN
+                IF HasDict(rec.lab) THEN
                 \* instance.__dict__.update(state): state None raises TypeError (deviation "slotsnone")
                 IF IsNoneV(dpart) THEN
-                   IF "slotsnone" \in st.fx THEN [st EXCEPT !.heap[iv.r] = SetAttrs(rec, spart.e)] ELSE Fail(st, "TypeError")
+                   IF "slotsnone" \in st.fx THEN put(PySetattrs(rec, spart.e)) ELSE Fail(st, "TypeError")
                 ELSE IF dpart.t # "dict" THEN Fail(st, "TypeError")
-                ELSE [st EXCEPT !.heap[iv.r] = SetAttrs(SetAttrs(rec, dpart.e), spart.e)]
+                ELSE put(PySetattrs(SetAttrs(rec, dpart.e), spart.e))
            ELSE \* elif state: slotstate.update(state)
-                IF dpart.t = "dict" THEN [st EXCEPT !.heap[iv.r] = SetAttrs(SetAttrs(rec, spart.e), dpart.e)]
-                ELSE IF IsNoneV(dpart) \/ (dpart.t = "atom" /\ ~Truthy(st.heap, RVof(dpart))) THEN [st EXCEPT !.heap[iv.r] = SetAttrs(rec, spart.e)]
+                IF dpart.t = "dict" THEN put(PySetattrs(PySetattrs(rec, spart.e), dpart.e))
+                ELSE IF IsNoneV(dpart) \/ (dpart.t = "atom" /\ ~Truthy(st.heap, RVof(dpart))) THEN put(PySetattrs(rec, spart.e))
                 ELSE Fail(st, "TypeError")
 
 Lookup(pairs, key) == IF \E j \in DOMAIN pairs : pairs[j][1] = key
@@ -636,9 +707,11 @@ AsSeq(F) == SelectSeq(FixOrder, LAMBDA x : x \in F)
 \* a repair can only matter on graphs that reach the code it changes (keeps the search small)
 Relevant(g) ==
   (IF H!AnyCycle(Ref(g)) THEN {"deepreg"} ELSE {})
-  \cup (IF \E i \in DOMAIN g : g[i].s = "SD" /\ Len(g[i].a) = 1 THEN {"slotsnone"} ELSE {})
+  \cup (IF \E i \in DOMAIN g : (g[i].s = "SD" /\ Len(g[i].a) = 1) \/ (g[i].s \in {"DS", "SB"} /\ g[i].p = <<>> /\ g[i].a # <<>>)
+        THEN {"slotsnone"} ELSE {})
   \cup (IF \E i \in DOMAIN g : g[i].s \in {"GT", "GV"} THEN {"falsystate"} ELSE {})
-  \cup (IF \E i \in DOMAIN g : g[i].s = "GV" /\ g[i].p[1] = Lf("z") THEN {"nonestate"} ELSE {})
+  \cup (IF \E i \in DOMAIN g : (g[i].s = "GV" /\ g[i].p[1] = Lf("z")) \/ (g[i].s \in StateT /\ g[i].p = <<>> /\ g[i].a = <<>>)
+        THEN {"nonestate"} ELSE {})
   \cup (IF \E i \in DOMAIN g : g[i].s = "NA" /\ g[i].p = <<>> THEN {"emptytuple"} ELSE {})
   \cup (IF \E i \in DOMAIN g : g[i].s = "GL" THEN {"latefill"} ELSE {})
   \cup (IF \E i \in DOMAIN g : g[i].s = "XS" THEN {"scalarsub"} ELSE {})
@@ -664,12 +737,15 @@ KidSeqs(n, h, leafOnly) ==
                  c \in {Lf(l) : l \in Leaves} \cup (IF leafOnly THEN {} ELSE {Rf(j) : j \in 1 .. Min(x.hi + 1, MaxObjs)})}
               : x \in KidSeqs(n - 1, h, leafOnly)}
 
-AOnly  == {"P", "PA", "S", "SD", "GS"}
+AOnly  == {"P", "PA", "S", "SD", "GS", "PT", "ST"}
+BothSec == {"DS", "SB", "DST"}          \* p = dictionary entries, a = slot values, any split
 TwoSec == {"NA", "R3", "RL", "ML", "MD", "MO"}
 \* allowed (np, na) for a shape with at most m kids
 Splits(s, m) ==
   CASE s \in AOnly  -> {<<0, na>> : na \in 0 .. m}
     [] s \in TwoSec -> {<<np, na>> \in (0 .. 1) \X (0 .. 1) : np + na <= m}
+    [] s \in BothSec -> {<<np, na>> \in (0 .. m) \X (0 .. m) : np + na <= m}
+    [] s \in {"E0", "E0T"} -> {<<0, 0>>}
     [] s \in {"GV", "GL"} -> {<<1, 0>>}
     [] s = "tuple"  -> {<<np, 0>> : np \in 1 .. m}
     [] s = "XS"     -> {<<1, na>> : na \in 0 .. (IF m = 0 THEN 0 ELSE m - 1)}
